@@ -327,7 +327,7 @@ func TestC08Large(t *testing.T) {
 					ev := REvent{N: rapid.SampledFrom([]int{1, 100, 32767, 32768, 32769, 50_000, 0}).Draw(t, "evN")}
 					switch rapid.IntRange(0, 5).Draw(t, "evErr") {
 					case 0:
-						ev.Err = "E"
+						ev.Err = rapid.SampledFrom([]string{"E", "U", "P"}).Draw(t, "evErrKind")
 					case 1:
 						ev.Err = "EOF"
 					}
